@@ -98,6 +98,8 @@ def jobs(tier):
     add('read_next', osrc, 'h_read_next', 'proof', 'op_read::next + op_bind::current (loop-free)', inputs=['exhausted'])
     add('bind_then_read', osrc, 'h_bind_then_read', 'lemma', 'bind followed by read restores the stack')
     add('upread', osrc, 'h_upread', 'proof', 'op_upread::next (loop-free)')
+    psrc = [os.path.join(HERE, 'bp_harness.c'), os.path.join(OUT, 'bp_bodies.c')]
+    add('build_pred_scope', psrc, 'h_build_pred_scope', 'proof', 'build_pred (build.cc), loop-free: the sub-expression of ?( ) / !( ) gets a scope object of its own nested in the current one', inputs=['negated'])
     add('bounded_lex_closure', osrc, 'hb_lex_closure', 'bounded', 'op_lex_closure::next with <= 4 up-values')
     J.append(Job('control', bsrc, 'h_control', includes=inc, defines=['VERIF_CONTROL'], kind='control', expect='fail', unwind=9, timeout=300))
     J.append(Job('opb_control', osrc, 'h_opb_control', includes=inc, defines=['VERIF_CONTROL'], kind='control', expect='fail', unwind=9, timeout=300))
@@ -110,18 +112,21 @@ ASSUMPTIONS = [
     'identifiers are atoms (equal atoms <=> equal strings); std::map<std::string,T> is a total table over 4 atoms (props/c03/bind_model*.h); the functions under proof touch only the slot of their argument and the obligations are stated for an arbitrary probe name',
     'throw std::runtime_error -> error flag, message construction dropped; assert() failure -> error flag',
     'operators: stacks are arrays of value identities of depth <= 7, unique_ptr = plain pointer/int, value::clone() = identity, scon::get<state>(loc) = one state object per location, value_closure construction records the captured environment (props/c03/opb_model*.h)',
-    'SLICE: build.cc (which scope object each sub-expression gets, the order of reads emitted for a block, READ/BIND cases), uprefs constructor, names_closure, op_apply::substate and the parser are NOT covered',
+    'build_pred (build.cc): trees, layout, preds and build_exec are modelled (props/c03/bp_model.h); only the scope handed to build_exec is checked',
+    'SLICE: build_exec of build.cc (scopes of the other constructs incl. format directives and ALT branches, the order of reads emitted for a block, READ/BIND cases), uprefs constructor, names_closure, op_apply::substate and the parser are NOT covered',
 ]
 EXPLANATION = 'Scope chain, rebind check, up-value ids and the binder/reader operators; see DESIGN.md section 4 C03.'
 
 
 def spec_files():
-    return [os.path.join(HERE, f) for f in ('bind_harness.c', 'opb_harness.c', 'bind_model.h', 'bind_model2.h', 'opb_model.h', 'opb_model2.h')]
+    return [os.path.join(HERE, f) for f in ('bind_harness.c', 'opb_harness.c', 'bp_harness.c', 'bind_model.h', 'bind_model2.h', 'opb_model.h', 'opb_model2.h', 'bp_model.h')]
 
 
 def prepare(tier):
     lw = vlib.extract('bind', 'libzwerg/bindings.cc', CFG, ROOTS, OUT)
     ow = vlib.extract('opb', 'libzwerg/op.cc', OPB_CFG, OPB_ROOTS, OUT)
+    pw = vlib.extract('bp', 'libzwerg/build.cc', BP_CFG, BP_ROOTS, OUT)
+    ow.report['functions'] += pw.report['functions']
     return {'unit': 'libzwerg/bindings.cc, libzwerg/op.cc (binder/reader operators)', 'functions': lw.report['functions'] + ow.report['functions']}
 
 
@@ -130,7 +135,9 @@ QUERIES = [('1 2 (|A B| A B)', '<1|2>'), ('1 2 (|A B| B A)', '<2|1>'), ('7 (|A| 
            ('1 (|A| 2 (|B| {A B})) apply', '<1|2>'), ('1 2 (|A B| {B {A} apply}) apply', '<2|1>'), ('1 (|A| (2 (|A| A), A))', '<2> <1>'),
            ('let A := 1; let A := 2; A', None), ('B', None), ('1 (|A| A) A', None), ('(1, 2) (|A| A A)', '<1|1> <2|2>'),
            ('1 (|A| (2, 3) (|B| A B))', '<1|2> <1|3>'), ('4 (|A| {A}) (|F| 9 (|A| F))', '<4>'), ('1 2 3 (|A B C| {C B A}) apply', '<3|2|1>'),
-           ('1 (|A| 2 (|B| {A B})) (|F| 3 (|A| 4 (|B| F)))', '<1|2>')]
+           ('1 (|A| 2 (|B| {A B})) (|F| 3 (|A| 4 (|B| F)))', '<1|2>'),
+           ('5 ?(let A := 1;) A', None), ('5 !(let A := 1; 0 1 ?eq) A', None), ('"%( let A := 1; A %)" A', None), ('(let A := 1;)? A', None),
+           ('(0, 5) (?(1 ?lt) let A := 7;)? A', None), ('let A := 1; ?(let A := 2;) A', '<1>'), ('7 (let A := 2; A, let A := 3; A)', '<7|2> <7|3>')]
 
 
 def replay(r):
@@ -143,3 +150,30 @@ def replay(r):
         elif cnt is None or (txt or '').strip() != e:
             bad.append('`%s` yields %s, expected %s' % (q, txt if cnt is not None else 'an error', e))
     return {'reproduced': bool(bad), 'violations_on_real_library': bad[:6], 'queries': len(QUERIES)}
+
+
+# ---- build.cc: build_pred -- which scope the sub-expression of ?( ) / !( ) is built in
+BP_CFG = {
+    'names': {'(anonymous namespace)::build_pred': 'build_pred'},
+    'types': {r'(const )?std::unique_ptr<pred(, std::default_delete<pred>)?>': 'int',
+              r'(const )?std::unique_ptr<pred_(not|or|and|subx_any)(, std::default_delete<pred_(not|or|and|subx_any)>)?>': 'int',
+              r'(const )?std::(shared_ptr<(op|op_origin)>|__shared_ptr<(op|op_origin).*>)': 'mop *',
+              r'(const )?std::(shared_ptr<const builtin>|__shared_ptr<const builtin.*>|__shared_ptr_access<const builtin.*>)': 'mbuiltin *',
+              r'layout::loc': 'unsigned long', r'layout': 'mlayout', r'uprefs': 'muprefs', r'tree': 'mtree', r'bindings': 'mbindings',
+              r'(const )?std::vector<tree(, std::allocator<tree>)?>': 'mtreevec', r'builtin': 'mbuiltin'},
+    'types_are_records': {r'layout': True, r'uprefs': True, r'tree': True, r'bindings': True, r'(const )?std::vector<tree(, std::allocator<tree>)?>': True, r'builtin': True},
+    'record_ctypes': ['mlayout', 'muprefs', 'mtree', 'mbindings', 'mtreevec', 'mbuiltin'],
+    'types_prelude': '#include "bp_model.h"\n',
+    'virtual': {'builtin::build_pred': 'builtin_build_pred_model'},
+    'extern': {'__assert_fail': 'verif_assert_fail_libc', 'abort': 'verif_abort',
+               r'\(anonymous namespace\)::build_exec': 'build_exec_model',
+               r'std::make_unique\|.*pred_not.*': 'mk_pred_not', r'std::make_unique\|.*pred_or.*': 'mk_pred_or',
+               r'std::make_unique\|.*pred_and.*': 'mk_pred_and', r'std::make_unique\|.*pred_subx_any.*': 'mk_pred_subx_any',
+               r'std::make_shared\|.*op_origin.*': 'mk_origin',
+               r'tree::child': 'mtree_child', r'(const )?std::vector<tree.*>::operator\[\]': 'mtreevec_at',
+               r'(const )?std::vector<tree.*>::size': 'mtreevec_size',
+               r'bindings::ctor\|void \(bindings &\)': 'mbindings_nested',
+               r'std::__shared_ptr_access<const builtin.*>::operator->': {'c': 'PTR_ID', 'by_value': True},
+               r'std::move': 'VERIF_MOVE'},
+}
+BP_ROOTS = ['(anonymous namespace)::build_pred']
